@@ -165,12 +165,24 @@ pub(super) fn move_while_borrowed(
     // The following invariant MUST hold at all times: once we visit a node, we must have
     // already visited all the nodes that are connected with it by an outgoing edge (i.e.
     // all the nodes that depend on it).
-    // Any source node works as a starting point for our DfS.
-    let source_id = call_graph.externals(Direction::Incoming).next().unwrap();
-    let mut dfs = DfsPostOrder::new(&call_graph, source_id);
+    // A single source is not enough as a starting point for our DFS: a call graph can have
+    // several sources (e.g. two constructors without inputs) and a node that is only reachable
+    // from the second one would never be examined. We restart the traversal from every source,
+    // keeping the sets of discovered/finished nodes: the post-order invariant above still holds.
+    let source_ids: Vec<NodeIndex> = call_graph.externals(Direction::Incoming).collect();
+    let mut dfs = DfsPostOrder::new(&call_graph, source_ids[0]);
     let mut node2borrows: HashMap<NodeIndex, IndexSet<NodeIndex>> = HashMap::new();
+    let mut next_source = 1;
 
-    while let Some(node_index) = dfs.next(&call_graph) {
+    loop {
+        let Some(node_index) = dfs.next(&call_graph) else {
+            if next_source >= source_ids.len() {
+                break;
+            }
+            dfs.move_to(source_ids[next_source]);
+            next_source += 1;
+            continue;
+        };
         let borrowed_later: IndexSet<NodeIndex> = call_graph
             .neighbors_directed(node_index, Direction::Outgoing)
             .fold(IndexSet::new(), |mut acc, neighbor_index| {
@@ -205,6 +217,8 @@ pub(super) fn move_while_borrowed(
             }
         });
 
+        // Clone nodes inserted between a dependency and the current node while processing it.
+        let mut inserted_clone_nodes: Vec<(NodeIndex, NodeIndex)> = Vec::new();
         'dependencies: for edge_id in dependency_edge_ids {
             let dependency_index = call_graph.edge_endpoints(edge_id).unwrap().0;
             match call_graph.edge_weight(edge_id).unwrap() {
@@ -212,7 +226,7 @@ pub(super) fn move_while_borrowed(
                     if borrowed_immutably_now.contains(&dependency_index)
                         || borrowed_later.contains(&dependency_index)
                     {
-                        try_clone(
+                        if let Some(clone_node_id) = try_clone(
                             &mut call_graph,
                             node_index,
                             edge_id,
@@ -223,7 +237,9 @@ pub(super) fn move_while_borrowed(
                             krate_collection,
                             root_scope_id,
                             diagnostics,
-                        )
+                        ) {
+                            inserted_clone_nodes.push((clone_node_id, dependency_index));
+                        }
                     }
                 }
                 CallGraphEdgeMetadata::ExclusiveBorrow => {
@@ -250,6 +266,15 @@ pub(super) fn move_while_borrowed(
         let mut borrowed = borrowed_immutably_now;
         borrowed.extend(&borrowed_mutably_now);
         borrowed.extend(&borrowed_later);
+        // A clone node that we have just inserted will never be visited by the DFS (its parent
+        // has already been discovered), but it now sits between the dependency and the current
+        // node: it must forward the borrows of the current node (plus its own borrow of the value
+        // it clones), otherwise the ancestors of the dependency no longer see them.
+        for (clone_node_id, dependency_index) in inserted_clone_nodes {
+            let mut clone_borrows = borrowed.clone();
+            clone_borrows.insert(dependency_index);
+            node2borrows.insert(clone_node_id, clone_borrows);
+        }
         node2borrows.insert(node_index, borrowed);
         visited_nodes.insert(node_index);
 
@@ -287,11 +312,11 @@ fn try_clone(
     krate_collection: &CrateCollection,
     root_scope_id: ScopeId,
     diagnostics: &crate::diagnostic::DiagnosticSink,
-) {
+) -> Option<NodeIndex> {
     let dependency_index = call_graph.edge_endpoints(edge_id).unwrap().0;
     if copy_checker.is_copy(call_graph, dependency_index, component_db, computation_db) {
         // You can't have a "borrow after moved" error for a Copy type.
-        return;
+        return None;
     }
 
     let clone_component_id = call_graph[dependency_index].component_id().and_then(|id| {
@@ -314,7 +339,7 @@ fn try_clone(
             call_graph,
             diagnostics,
         );
-        return;
+        return None;
     };
 
     let clone_node_id = call_graph.add_node(CallGraphNode::Compute {
@@ -331,6 +356,7 @@ fn try_clone(
     );
     call_graph.update_edge(clone_node_id, node_index, CallGraphEdgeMetadata::Move);
     call_graph.remove_edge(edge_id);
+    Some(clone_node_id)
 }
 
 fn emit_ancestor_descendant_borrow_error(
